@@ -1,7 +1,7 @@
 /-
   C09 — every module that carries theorems of namespace `Sarpy.Props.C09` (the audit of harness/c09.py imports this one):
   layout arithmetic (C09), header text and retry termination (C09H), writer state machine (C09W: single steps, file-object log, close;
-  C09Image: the file image over good histories; C09Wf: layout => well-formed configuration, counter-example),
+  C09Image: the file image over good histories; C09Wf: layout => well-formed configuration, counter-example; C09Amp: which AmpSF a formatted chunk is encoded with),
   bridge to the regenerated make_file_header kernels (Bridge/Cphd).
 -/
 import SarpyModel.Props.C09
@@ -9,4 +9,5 @@ import SarpyModel.Props.C09H
 import SarpyModel.Props.C09W
 import SarpyModel.Props.C09Image
 import SarpyModel.Props.C09Wf
+import SarpyModel.Props.C09Amp
 import SarpyModel.Bridge.Cphd
